@@ -47,7 +47,16 @@ pub uninterp spec fn ldk_sign_holder_commitment(keys: InMemorySigner, tx: Holder
 pub uninterp spec fn ldk_sign_closing(keys: InMemorySigner, tx: ClosingTransaction) -> Signature;
 pub uninterp spec fn ldk_sign_cp_commitment(keys: InMemorySigner, tx: CommitmentTransaction) -> (Signature, Seq<Signature>);
 
+pub uninterp spec fn ldk_pubkeys(keys: InMemorySigner) -> ChannelPublicKeys;
+pub uninterp spec fn ldk_counterparty_pubkeys(keys: InMemorySigner) -> Option<ChannelPublicKeys>;
 impl InMemorySigner {
+    #[verifier::external_body]
+    pub fn pubkeys(&self) -> (r: &ChannelPublicKeys) ensures *r == ldk_pubkeys(*self) { unimplemented!() }
+    #[verifier::external_body]
+    pub fn counterparty_pubkeys(&self) -> (r: Option<&ChannelPublicKeys>)
+        ensures r.is_some() == ldk_counterparty_pubkeys(*self).is_some(),
+                r.is_some() ==> *(r->Some_0) == ldk_counterparty_pubkeys(*self)->Some_0
+    { unimplemented!() }
     #[verifier::external_body]
     pub fn release_commitment_secret(&self, idx: u64) -> (r: Result<[u8; 32], ()>)
         ensures r.is_ok() ==> (r->Ok_0)@ == ldk_commitment_secret(*self, idx)
